@@ -113,7 +113,7 @@ func VH_C17_K1_KernelTwoUpdates() {
 	// second update
 	u2 := &vhUpdate{}
 	how := 1 + verifrt.Choose("growth", 2)
-	switch verifrt.Choose("second-update", 4) {
+	switch verifrt.Choose("second-update", 5) {
 	case 0: // same rounds, views grow; slots that did not change are absent
 		verifrt.Reach("K1-same-rounds-grow")
 		u2.voting = vhGrow(vote0, how)
@@ -145,6 +145,13 @@ func VH_C17_K1_KernelTwoUpdates() {
 		u2.committing = cm
 		u2.voting = &vhSpec{h: 6, r: 0, ph: verifrt.Choose("new-height-has-header", 2)}
 		u2.nextRound = &vhSpec{h: 6, r: 1}
+	case 4: // an older nil-committed round (5,0) is handed over on its own: the engine sends one
+		// nil-voted round per update, so a second one arrives with no voting view beside it
+		verifrt.Reach("K1-nil-voted-round-alone")
+		u2.nilVoted = &vhSpec{h: 5, r: 0, ph: 1, votes: [2][3]int{{0, 3, 0}, {3, 0, 0}}}
+		if firstNil {
+			u2.nilVoted.h = 4
+		}
 	}
 
 	updates <- u1.real(n)
